@@ -7,6 +7,7 @@
 mod gen;
 mod ops;
 mod proto;
+mod rngstat;
 
 use gen::Rng;
 use proto::Driver;
@@ -264,6 +265,7 @@ fn main() {
     let mut exhaustive = false;
     let mut corpus = None;
     let mut replay: Option<Value> = None;
+    let mut rngstat_n: Option<usize> = None;
     let mut i = 1;
     while i < args.len() {
         match args[i].as_str() {
@@ -297,12 +299,28 @@ fn main() {
                 i += 1
             }
             "--exhaustive" => exhaustive = true,
+            "--rngemit" => {
+                i += 2
+            }
+            "--rngstat" => {
+                rngstat_n = Some(args[i + 1].parse().unwrap());
+                i += 1
+            }
             x => {
                 eprintln!("unknown argument {x}");
                 std::process::exit(2)
             }
         }
         i += 1;
+    }
+    if args.len() >= 4 && args[1] == "--rngemit" {
+        rngstat::emit(&args[2], args[3].parse().unwrap());
+        return;
+    }
+    if let Some(n) = rngstat_n {
+        let v = rngstat::run(n);
+        std::fs::write(&out, serde_json::to_string_pretty(&v).unwrap()).unwrap();
+        return;
     }
     let mut d = Driver::spawn(&driver).expect("cannot start model driver");
     let mut results = Vec::new();
